@@ -82,3 +82,51 @@ E('C09', 'GE as 1 - ey[L-1] guarded', (STA, '    return eyc[numpy.searchsorted(e
 E('C09', 'len for shape', (STA, "    x = numpy.asarray(x)\n    if x.shape[0] == 0:\n        return None\n    if not cdf:\n        ex, ey = ecdf(x)\n    else:\n        ex, ey = cdf\n    # some", "    x = numpy.asarray(x)\n    if len(x) == 0:\n        return None\n    if not cdf:\n        ex, ey = ecdf(x)\n    else:\n        ex, ey = cdf\n    # some"))
 E('C09', 'flip for [::-1]', (STA, 'eyc = ey[::-1]', 'eyc = numpy.flip(ey)'))
 E('C09', 'ramp without float()', (STA, 'ys = numpy.arange(1, len(x) + 1) / float(len(x))', 'n = len(x)\n    ys = numpy.arange(1, n + 1) / n'))
+
+# ------------------------------------------------------------------------------------------------ C07
+M('C07', 'delta1 without -eps', 'C07-D1', (POI, 'delta1 = 1.0 - scipy.stats.poisson.cdf(obs_cnt - epsilon, fore_cnt)', 'delta1 = 1.0 - scipy.stats.poisson.cdf(obs_cnt, fore_cnt)'))
+M('C07', 'delta2 minus eps', 'C07-D1', (POI, 'delta2 = scipy.stats.poisson.cdf(obs_cnt + epsilon, fore_cnt)', 'delta2 = scipy.stats.poisson.cdf(obs_cnt - epsilon, fore_cnt)'))
+M('C07', 'delta1 complement lost', 'C07-D1', (POI, 'delta1 = 1.0 - scipy.stats.poisson.cdf(obs_cnt - epsilon, fore_cnt)', 'delta1 = scipy.stats.poisson.cdf(obs_cnt - epsilon, fore_cnt)'))
+M('C07', 'deltas swapped in return', 'C07-D1', (POI, '    return delta1, delta2\n\n\ndef _t_test', '    return delta2, delta1\n\n\ndef _t_test'))
+M('C07', 'epsilon = 1.0 at call', 'C07-D1', (POI, '    epsilon = 1e-6\n\n    # stores the actual result of the number test\n    delta1, delta2 = _number_test_ndarray', '    epsilon = 1.0\n\n    # stores the actual result of the number test\n    delta1, delta2 = _number_test_ndarray'))
+M('C07', 'args swapped at call', 'C07-D1', (POI, '_number_test_ndarray(fore_cnt, obs_cnt, epsilon=epsilon)', '_number_test_ndarray(obs_cnt, fore_cnt, epsilon=epsilon)'))
+M('C07', 'quantile swapped', 'C07-D1', (POI, "    result.name = 'Poisson N-Test'\n    result.observed_statistic = obs_cnt\n    result.quantile = (delta1, delta2)", "    result.name = 'Poisson N-Test'\n    result.observed_statistic = obs_cnt\n    result.quantile = (delta2, delta1)"))
+M('C07', 'mu and k swapped', 'C07-D1', (POI, 'delta2 = scipy.stats.poisson.cdf(obs_cnt + epsilon, fore_cnt)', 'delta2 = scipy.stats.poisson.cdf(fore_cnt, obs_cnt + epsilon)'))
+M('C07', 'nbd tau/upsilon swapped', 'C07-D2', (BIN, 'delta2 = scipy.stats.nbinom.cdf(obs_cnt + epsilon, tau, upsilon, loc=0)', 'delta2 = scipy.stats.nbinom.cdf(obs_cnt + epsilon, upsilon, tau, loc=0)'))
+M('C07', 'nbd upsilon complement lost', 'C07-D2', (BIN, 'upsilon = 1.0 - ((var - mean) / var)', 'upsilon = ((var - mean) / var)'))
+M('C07', 'nbd tau denominator', 'C07-D2', (BIN, 'tau = (mean**2 /(var - mean))', 'tau = (mean**2 /(var + mean))'))
+M('C07', 'nbd tau mean not squared', 'C07-D2', (BIN, 'tau = (mean**2 /(var - mean))', 'tau = (mean /(var - mean))'))
+M('C07', 'nbd delta1 without -eps', 'C07-D2', (BIN, 'delta1 = 1.0 - scipy.stats.nbinom.cdf(obs_cnt - epsilon, tau, upsilon, loc=0)', 'delta1 = 1.0 - scipy.stats.nbinom.cdf(obs_cnt, tau, upsilon, loc=0)'))
+M('C07', 'catalog get_quantiles swapped', 'C07-D3', (CEV, 'delta_1, delta_2 = get_quantiles(event_counts, obs_count)', 'delta_1, delta_2 = get_quantiles(obs_count, event_counts)'))
+M('C07', 'catalog quantile swapped', 'C07-D3', (CEV, "                                     observed_statistic=obs_count,\n                                     quantile=(delta_1, delta_2),", "                                     observed_statistic=obs_count,\n                                     quantile=(delta_2, delta_1),"))
+M('C07', 'catalog skips empty catalogs', 'C07-D3', (CEV, '        event_counts.append(catalog.event_count)\n    obs_count', '        if catalog.event_count > 0:\n            event_counts.append(catalog.event_count)\n    obs_count'))
+E('C07', 'upsilon as mean/var', (BIN, 'upsilon = 1.0 - ((var - mean) / var)', 'upsilon = mean / var'))
+E('C07', 'tau with product', (BIN, 'tau = (mean**2 /(var - mean))', 'tau = mean * mean / (var - mean)'))
+E('C07', 'delta1 exact integer form', (POI, 'delta1 = 1.0 - scipy.stats.poisson.cdf(obs_cnt - epsilon, fore_cnt)', 'delta1 = 1.0 - scipy.stats.poisson.cdf(obs_cnt - 1, fore_cnt)'))
+E('C07', 'delta1 via sf', (POI, 'delta1 = 1.0 - scipy.stats.poisson.cdf(obs_cnt - epsilon, fore_cnt)', 'delta1 = scipy.stats.poisson.sf(obs_cnt - epsilon, fore_cnt)'))
+E('C07', 'kw mu', (POI, 'delta2 = scipy.stats.poisson.cdf(obs_cnt + epsilon, fore_cnt)', 'delta2 = scipy.stats.poisson.cdf(obs_cnt + epsilon, mu=fore_cnt)'))
+
+# ------------------------------------------------------------------------------------------------ C08
+M('C08', 'np import removed', 'G-UNDEF', (BIN, 'import numpy as np\n', ''))
+M('C08', 'find_repeats back', 'G-API', (POI, '    _, repcounts = numpy.unique(r, return_counts=True)\n    repnum = repcounts[repcounts > 1]\n', '    replist, repnum = scipy.stats.find_repeats(r)\n'))
+M('C08', 'N2 - N1', 'C08-D3', (POI, 'information_gain = (numpy.sum(X1 - X2) - (N1 - N2)) / N\n\n    # Compute variance of (X1-X2) using Equation (18)  of Rhoades et al. 2011\n    first_term = (numpy.sum(numpy.power((X1 - X2), 2))) / (N - 1)', 'information_gain = (numpy.sum(X1 - X2) - (N2 - N1)) / N\n\n    # Compute variance of (X1-X2) using Equation (18)  of Rhoades et al. 2011\n    first_term = (numpy.sum(numpy.power((X1 - X2), 2))) / (N - 1)'))
+M('C08', 'variance with N', 'C08-D3', (POI, 'first_term = (numpy.sum(numpy.power((X1 - X2), 2))) / (N - 1)\n    second_term = numpy.power(numpy.sum(X1 - X2), 2) / (numpy.power(N, 2) - N)\n    forecast_variance = first_term - second_term\n\n    forecast_std = numpy.sqrt(forecast_variance)\n    t_statistic = information_gain / (forecast_std / numpy.sqrt(N))\n\n    # Obtaining the Critical Value of T from T distribution.\n    df = N - 1\n    t_critical = scipy.stats.t.ppf(1 - (alpha / 2),\n', 'first_term = (numpy.sum(numpy.power((X1 - X2), 2))) / N\n    second_term = numpy.power(numpy.sum(X1 - X2), 2) / (numpy.power(N, 2) - N)\n    forecast_variance = first_term - second_term\n\n    forecast_std = numpy.sqrt(forecast_variance)\n    t_statistic = information_gain / (forecast_std / numpy.sqrt(N))\n\n    # Obtaining the Critical Value of T from T distribution.\n    df = N - 1\n    t_critical = scipy.stats.t.ppf(1 - (alpha / 2),\n'))
+M('C08', 'ig_upper = gain - ...', 'C08-D2', (POI, 'ig_upper = information_gain + (t_critical * forecast_std / numpy.sqrt(N))\n\n    # If T value greater than T critical, Then both Lower and Upper Confidence Interval limits will be greater than Zero.\n    # If above Happens, Then It means that Forecasting Model 1 is better than Forecasting Model 2.\n    return {\'t_statistic\': t_statistic,\n            \'t_critical\': t_critical,\n            \'information_gain\': information_gain,\n            \'ig_lower\': ig_lower,\n            \'ig_upper\': ig_upper}\n\n\ndef _w_test', 'ig_upper = information_gain - (t_critical * forecast_std / numpy.sqrt(N))\n\n    # If T value greater than T critical, Then both Lower and Upper Confidence Interval limits will be greater than Zero.\n    # If above Happens, Then It means that Forecasting Model 1 is better than Forecasting Model 2.\n    return {\'t_statistic\': t_statistic,\n            \'t_critical\': t_critical,\n            \'information_gain\': information_gain,\n            \'ig_lower\': ig_lower,\n            \'ig_upper\': ig_upper}\n\n\ndef _w_test'))
+M('C08', 'alpha not halved', 'C08-D3', (POI, 't_critical = scipy.stats.t.ppf(1 - (alpha / 2),\n                                   df)', 't_critical = scipy.stats.t.ppf(1 - alpha,\n                                   df)'))
+M('C08', 'gain divisor N-1', 'C08-D3', (POI, 'information_gain = (numpy.sum(X1 - X2) - (N1 - N2)) / N\n\n    # Compute variance of (X1-X2) using Equation (18)  of Rhoades et al. 2011\n    first_term = (numpy.sum(numpy.power((X1 - X2), 2))) / (N - 1)\n    second_term = numpy.power(numpy.sum(X1 - X2), 2) / (numpy.power(N, 2) - N)\n    forecast_variance = first_term - second_term\n\n    forecast_std = numpy.sqrt(forecast_variance)\n    t_statistic = information_gain / (forecast_std / numpy.sqrt(N))\n\n    # Obtaining the Critical Value of T from T distribution.\n    df = N - 1\n    t_critical = scipy.stats.t.ppf(1 - (alpha / 2),\n', 'information_gain = (numpy.sum(X1 - X2) - (N1 - N2)) / (N - 1)\n\n    # Compute variance of (X1-X2) using Equation (18)  of Rhoades et al. 2011\n    first_term = (numpy.sum(numpy.power((X1 - X2), 2))) / (N - 1)\n    second_term = numpy.power(numpy.sum(X1 - X2), 2) / (numpy.power(N, 2) - N)\n    forecast_variance = first_term - second_term\n\n    forecast_std = numpy.sqrt(forecast_variance)\n    t_statistic = information_gain / (forecast_std / numpy.sqrt(N))\n\n    # Obtaining the Critical Value of T from T distribution.\n    df = N - 1\n    t_critical = scipy.stats.t.ppf(1 - (alpha / 2),\n'))
+M('C08', 'binary gain divided by events', 'C08-D3', (BIN, '    information_gain = (numpy.sum(X1 - X2) - (N1 - N2)) / N\n', '    information_gain = (numpy.sum(X1 - X2) - (N1 - N2)) / N_p\n'))
+M('C08', 'W abs dropped in ranks', 'C08-D', (POI, 'r = scipy.stats.rankdata(abs(d))', 'r = scipy.stats.rankdata(d)'))
+M('C08', 'W max for min', 'C08-D3', (POI, 't = min(r_plus, r_minus)', 't = max(r_plus, r_minus)'))
+M('C08', 'W one-sided p', 'C08-D3', (POI, 'prob = 2. * scipy.stats.distributions.norm.sf(abs(z))', 'prob = scipy.stats.distributions.norm.sf(abs(z))'))
+M('C08', 'W p without abs', 'C08-D', (POI, 'prob = 2. * scipy.stats.distributions.norm.sf(abs(z))', 'prob = 2. * scipy.stats.distributions.norm.sf(z)'))
+M('C08', 'W r_plus >=', 'C08-D', (POI, 'r_plus = numpy.sum((d > 0) * r, axis=0)', 'r_plus = numpy.sum((d >= 0) * r, axis=0)'))
+M('C08', 'W tie correction factor', 'C08-D3', (POI, 'se -= 0.5 * (repnum * (repnum * repnum - 1)).sum()', 'se -= (repnum * (repnum * repnum - 1)).sum()'))
+M('C08', 'W ordinal ranks', 'C08-D3', (POI, 'r = scipy.stats.rankdata(abs(d))', 'r = numpy.argsort(numpy.argsort(abs(d))) + 1.'))
+M('C08', 'W median swapped', 'C08-D4', (POI, 'median_value = (N1 - N2) / N', 'median_value = (N2 - N1) / N'))
+M('C08', 'T scale dropped for benchmark', 'C08-D4', (POI, '    target_event_rate_forecast2, n_fore2 = benchmark_forecast.target_event_rates(\n        observed_catalog, scale=scale)\n\n    # call the primative', '    target_event_rate_forecast2, n_fore2 = benchmark_forecast.target_event_rates(\n        observed_catalog)\n\n    # call the primative'))
+M('C08', 'T totals swapped at call', 'C08-D4', (POI, 'n_fore1, n_fore2, alpha=alpha)', 'n_fore2, n_fore1, alpha=alpha)'))
+M('C08', 'T slots swapped', 'C08-D4', (POI, "result.test_distribution = (out['ig_lower'], out['ig_upper'])\n    result.observed_statistic = out['information_gain']\n    result.quantile = (out['t_statistic'], out['t_critical'])\n    result.sim_name = (forecast.name, benchmark_forecast.name)\n    result.obs_name = observed_catalog.name\n    result.status = 'normal'\n    result.min_mw = numpy.min(forecast.magnitudes)", "result.test_distribution = (out['ig_upper'], out['ig_lower'])\n    result.observed_statistic = out['information_gain']\n    result.quantile = (out['t_statistic'], out['t_critical'])\n    result.sim_name = (forecast.name, benchmark_forecast.name)\n    result.obs_name = observed_catalog.name\n    result.status = 'normal'\n    result.min_mw = numpy.min(forecast.magnitudes)"))
+E('C08', 'square for power', (POI, 'first_term = (numpy.sum(numpy.power((X1 - X2), 2))) / (N - 1)\n    second_term = numpy.power(numpy.sum(X1 - X2), 2) / (numpy.power(N, 2) - N)\n    forecast_variance = first_term - second_term\n\n    forecast_std = numpy.sqrt(forecast_variance)\n    t_statistic = information_gain / (forecast_std / numpy.sqrt(N))\n\n    # Obtaining the Critical Value of T from T distribution.\n    df = N - 1\n    t_critical = scipy.stats.t.ppf(1 - (alpha / 2),\n', 'first_term = (numpy.sum(numpy.square(X1 - X2))) / (N - 1)\n    second_term = numpy.sum(X1 - X2) ** 2 / (N * (N - 1))\n    forecast_variance = first_term - second_term\n\n    forecast_std = numpy.sqrt(forecast_variance)\n    t_statistic = information_gain / (forecast_std / numpy.sqrt(N))\n\n    # Obtaining the Critical Value of T from T distribution.\n    df = N - 1\n    t_critical = scipy.stats.t.ppf(1 - (alpha / 2),\n'))
+E('C08', 'sum of differences split', (POI, 'information_gain = (numpy.sum(X1 - X2) - (N1 - N2)) / N\n\n    # Compute variance of (X1-X2) using Equation (18)  of Rhoades et al. 2011\n    first_term = (numpy.sum(numpy.power((X1 - X2), 2))) / (N - 1)', 'information_gain = (numpy.sum(X1) - numpy.sum(X2) - N1 + N2) / N\n\n    # Compute variance of (X1-X2) using Equation (18)  of Rhoades et al. 2011\n    first_term = (numpy.sum(numpy.power((X1 - X2), 2))) / (N - 1)'))
+E('C08', 'W min args swapped', (POI, 't = min(r_plus, r_minus)', 't = min(r_minus, r_plus)'))
+M('C02', 'point tolerance from origin', 'C02-D2', (CALC, 'p_tol = tol or _get_tolerance(p)', 'p_tol = tol or a0_tol'))
